@@ -100,17 +100,18 @@ func pushdownAllowed(opts *Opts, query *sql.Query) (bool, error) {
 		return false, nil
 	}
 
-	if query.FromSubQuery != nil {
-		if len(query.FromSubQuery.OrderBy) > 0 || query.FromSubQuery.Crosstab != nil || query.FromSubQuery.Limit > 0 || query.FromSubQuery.Offset > 0 {
-			// If subquery contains order by, crosstab, limit or offset, we can't push down
-			log.Debugf("Pushdown not allowed because subquery contains disallowed clause: %v", query.FromSubQuery.SQL)
-			return false, nil
-		}
-	}
-
 	parentGroupByAll := true
 	parentGroupParams := make(map[string]bool)
 	for current := query; current != nil; current = current.FromSubQuery {
+		if current != query {
+			if len(current.OrderBy) > 0 || current.Crosstab != nil || current.Limit > 0 || current.Offset > 0 {
+				// If a subquery at any level contains order by, crosstab, limit or
+				// offset, we can't push down
+				log.Debugf("Pushdown not allowed because subquery contains disallowed clause: %v", current.SQL)
+				return false, nil
+			}
+		}
+
 		if current != query && current.Where != nil {
 			// Only the outermost query's IN-subqueries are evaluated cluster-wide
 			// and shipped to the partitions. An IN-subquery at a nested level would
